@@ -82,6 +82,59 @@ func factoryEntries(p *core.Program, fi *core.FuncInfo) ([]regEntry, string) {
 		}
 		return out, ""
 	}
+	// if / else-if chain on the code parameter: if code == K1 { ... } else if code == K2 || code == K3 { ... }
+	if fi.Decl.Type.Params != nil && len(fi.Decl.Type.Params.List) > 0 && len(fi.Decl.Type.Params.List[0].Names) > 0 {
+		pobj := info.Defs[fi.Decl.Type.Params.List[0].Names[0]]
+		var out []regEntry
+		keysOf := func(c ast.Expr) []ast.Expr {
+			var keys []ast.Expr
+			ok := true
+			var walk func(e ast.Expr)
+			walk = func(e ast.Expr) {
+				be, isB := ast.Unparen(e).(*ast.BinaryExpr)
+				if !isB {
+					ok = false
+					return
+				}
+				switch be.Op {
+				case token.LOR:
+					walk(be.X)
+					walk(be.Y)
+				case token.EQL:
+					x, y := ast.Unparen(stripConvs(info, be.X)), ast.Unparen(stripConvs(info, be.Y))
+					if id, isId := x.(*ast.Ident); isId && info.ObjectOf(id) == pobj {
+						keys = append(keys, be.Y)
+					} else if id, isId := y.(*ast.Ident); isId && info.ObjectOf(id) == pobj {
+						keys = append(keys, be.X)
+					} else {
+						ok = false
+					}
+				default:
+					ok = false
+				}
+			}
+			walk(c)
+			if !ok {
+				return nil
+			}
+			return keys
+		}
+		for _, st := range fi.Decl.Body.List {
+			ifs, isIf := st.(*ast.IfStmt)
+			for isIf && ifs != nil {
+				keys := keysOf(ifs.Cond)
+				if keys == nil {
+					break
+				}
+				out = append(out, regEntry{Keys: keys, Body: ifs.Body})
+				next, _ := ifs.Else.(*ast.IfStmt)
+				ifs = next
+			}
+		}
+		if len(out) >= 2 {
+			return out, ""
+		}
+	}
 	// table form
 	var lit *ast.CompositeLit
 	ast.Inspect(fi.Decl.Body, func(n ast.Node) bool {
@@ -265,7 +318,10 @@ func checkRegistry(p *core.Program, r *core.Report, rule, relPkg, factory, iface
 		}
 	}
 	// what happens for an unknown code
-	last := fi.Decl.Body.List[len(fi.Decl.Body.List)-1]
+	last := factoryFallback(fi.Decl.Body.List)
+	if last == nil {
+		last = fi.Decl.Body.List[len(fi.Decl.Body.List)-1]
+	}
 	switch v := last.(type) {
 	case *ast.ExprStmt:
 		if call, ok := v.X.(*ast.CallExpr); ok {
@@ -527,4 +583,37 @@ func freshExpr(p *core.Program, info *types.Info, fi *core.FuncInfo, e ast.Expr,
 		}
 	}
 	return "`" + stripSpaces(types.ExprString(e)) + "`"
+}
+
+// factoryFallback: what a factory does when no case matches — the statement after the dispatch, or
+// the last statement of its default / final else arm.
+func factoryFallback(list []ast.Stmt) ast.Stmt {
+	if len(list) == 0 {
+		return nil
+	}
+	switch l := list[len(list)-1].(type) {
+	case *ast.SwitchStmt:
+		for _, cs := range l.Body.List {
+			if cl := cs.(*ast.CaseClause); cl.List == nil {
+				return factoryFallback(cl.Body)
+			}
+		}
+		return l
+	case *ast.IfStmt:
+		cur := l
+		for {
+			switch e := cur.Else.(type) {
+			case *ast.IfStmt:
+				cur = e
+				continue
+			case *ast.BlockStmt:
+				return factoryFallback(e.List)
+			}
+			return l
+		}
+	case *ast.BlockStmt:
+		return factoryFallback(l.List)
+	default:
+		return l
+	}
 }
